@@ -12,11 +12,14 @@ The value type is abstract: a ring for `+ - neg`, a semiring for `*`, an additiv
 `1 ≠ 0` for logic and `== !=`, additionally a linear order for `< <= > >=`, and an abstract
 division for `/` whose behaviour at zero (`0/0 = nan`, `0/y = 0`, `x/y ≠ 0`) enters as explicit
 hypotheses that are proved for the extended rationals (`C03_xrat_*`) at which the driver
-executes the division model.  Only property theorems and examples here; proofs are in
-Lemmas/SparseElem*.lean.
+executes the division model.  Kruskal and Tucker operands (`Ops/SparseElemKruskal.lean`) are
+outside the letter of C03: `S * K` is the dense product, `S / K` is modelled and proved as coded
+(divisor `max(eps, K[j])` on the stored pattern of `S`), the other combinations are refused.
+Only property theorems and examples here; proofs are in Lemmas/SparseElem*.lean.
 -/
 import PyttbModel.Lemmas.SparseElemOrder
 import PyttbModel.Lemmas.SparseElemKruskal
+import PyttbModel.Lemmas.SparseElemKruskalXRat
 namespace Pyttb
 open SpElem
 
@@ -159,6 +162,92 @@ theorem C03_div_sparse_xrat (A B : Sparse XRat) (hA : A.WF) (hB : B.WF) (hs : A.
     ∃ R, div .nan A (.sparse B) = .ok R ∧ R.WF ∧ R.shape = A.shape ∧
       ∀ i, InBounds A.shape i → R.get i = A.get i / B.get i :=
   div_sparse_xrat A B hA hB hs hfa hfb
+
+/-! ### `/` by a Kruskal tensor
+
+A Kruskal divisor is outside the letter of C03 (scalar, dense and sparse right-hand sides).  The
+documented semantics, ported from the MATLAB toolbox and used by `cp_apr`, are NOT the dense
+quotient: the result has the stored pattern of `S` and every stored value is divided by
+`max(eps, K[j])`.  They part from dense `/` in three places (noted, not judged):
+(1) a stored cell with `K[j] < eps` (zero, tiny or NEGATIVE) holds `S[j]/eps`, dense `S[j]/K[j]`
+(`±inf` for `K[j] = 0`); (2) a cell `S` does not store holds `0`, which is the dense `0/K[i]`
+unless `K[i] = 0`, where dense `0/0` is `nan`; (3) an empty `S` raises. -/
+
+/-- `S / K` for a non-empty `S` and a Kruskal tensor `K` of the same shape: the result is
+well-formed, has the shape and exactly the stored subscripts of `S`, and denotes
+`S[i] / max(eps, K[i])` at the stored subscripts of `S` and `0` at every other cell, where
+`K[i] = Σ_r λ_r ∏ₙ Uₙ[iₙ, r]` (the code accumulates it component by component).  Division and
+`max` are abstract; `hnz` (no quotient of a stored value is 0, needed for well-formedness only)
+holds for finite values: `C03_div_kruskal_xrat`. -/
+theorem C03_div_kruskal [CommSemiring α] [Div α] [Max α] [DecidableEq α] (eps : α) (A : Sparse α)
+    (hA : A.WF) (K : Ktensor α) (hs : A.shape = K.shape) (hne : A.subs ≠ [])
+    (hnz : ∀ j ∈ A.subs, A.get j / max eps (K.get j) ≠ 0) :
+    ∃ R, divK eps A K = .ok R ∧ R.WF ∧ R.shape = A.shape ∧ R.subs = A.subs ∧
+      ∀ i, R.get i = if i ∈ A.subs then A.get i / max eps (K.get i) else 0 :=
+  divK_spec eps A hA K hs hne hnz
+
+/-- The same at the extended rationals the driver executes the model at, with no hypothesis about
+division or `max` left: finite stored values, a rational Kruskal tensor, `eps = 2⁻⁵²`. -/
+theorem C03_div_kruskal_xrat (A : Sparse XRat) (hA : A.WF) (K : Ktensor Rat) (hs : A.shape = K.shape)
+    (hne : A.subs ≠ []) (hfa : ∀ x ∈ A.vals, ∃ q : Rat, x = .fin q) :
+    ∃ R, divK (.fin floatEps) A K.toX = .ok R ∧ R.WF ∧ R.shape = A.shape ∧ R.subs = A.subs ∧
+      ∀ i, R.get i = if i ∈ A.subs then
+        A.get i / .fin (if floatEps < K.get i then K.get i else floatEps) else 0 :=
+  divK_xrat A hA K hs hne hfa
+
+/-- When is that the dense quotient `S[i] / K[i]` at EVERY cell of the shape?  Exactly under the
+two restrictions the code imposes: (`hfloor`) at the stored subscripts of `S` the floor is
+inactive, `max(eps, K[j]) = K[j]`, i.e. `K[j] ≥ eps`; (`h0y`) at the cells `S` does not store
+`0 / K[i] = 0`, i.e. `K[i] ≠ 0` there.  Outside them see `C03_div_kruskal_dense_counterexample`. -/
+theorem C03_div_kruskal_dense [CommSemiring α] [Div α] [Max α] [DecidableEq α] (eps : α) (A : Sparse α)
+    (hA : A.WF) (K : Ktensor α) (hs : A.shape = K.shape) (hne : A.subs ≠ [])
+    (hfloor : ∀ j ∈ A.subs, max eps (K.get j) = K.get j)
+    (h0y : ∀ i, InBounds A.shape i → i ∉ A.subs → (0 : α) / K.get i = 0)
+    (hnz : ∀ j ∈ A.subs, A.get j / K.get j ≠ 0) :
+    ∃ R, divK eps A K = .ok R ∧ R.WF ∧ R.shape = A.shape ∧
+      ∀ i, InBounds A.shape i → R.get i = A.get i / K.get i :=
+  divK_dense eps A hA K hs hne hfloor h0y hnz
+
+/-- The documented semantics are not dense `/`: for `S = {(0): 2}` of shape `[2]` and the rank-1
+`K = [-1, 0]` the code returns `{(0): 2/eps = 2⁵³}`; the dense quotient is `[2/(-1), 0/0] = [-2, nan]`. -/
+theorem C03_div_kruskal_dense_counterexample :
+    let A : Sparse XRat := ⟨[2], [[0]], [.fin 2]⟩
+    let K : Ktensor Rat := ⟨[1], [[[-1], [0]]]⟩
+    divK (.fin floatEps) A K.toX = .ok ⟨[2], [[0]], [.fin 9007199254740992]⟩ ∧
+    A.get [0] / .fin (K.get [0]) = .fin (-2) ∧ A.get [1] / .fin (K.get [1]) = .nan := by
+  decide +kernel
+
+/-- `S / K` refuses a Kruskal tensor of another shape … -/
+theorem C03_div_kruskal_rejects_shape [AddMonoid α] [Mul α] [One α] [Div α] [Max α] (eps : α) (A : Sparse α)
+    (K : Ktensor α) (hs : A.shape ≠ K.shape) : divK eps A K = .error .reject :=
+  divK_rejects_shape eps A K hs
+
+/-- … and, as coded, an EMPTY sparse operand (there is no `nnz == 0` shortcut: `subs[:, n]` on the
+`(1, 0)` subscript array raises IndexError; `*` has the shortcut). -/
+theorem C03_div_kruskal_rejects_empty [AddMonoid α] [Mul α] [One α] [Div α] [Max α] (eps : α) (A : Sparse α)
+    (K : Ktensor α) (he : A.subs = []) : divK eps A K = .error .reject :=
+  divK_rejects_empty eps A K he
+
+/-- `S * K` refuses a Kruskal tensor of another shape. -/
+theorem C03_mul_kruskal_rejects_shape [Add α] [Mul α] [One α] [Zero α] [BEq α] [LawfulBEq α] (A : Sparse α)
+    (K : Ktensor α) (hs : A.shape ≠ K.shape) : mulK A K = .error .reject := by
+  unfold mulK
+  have : (A.shape != K.shape) = true := by simpa using hs
+  simp [this]
+
+/-- `K * S` (ktensor.py hands the sparse operand back to `sptensor.__mul__`) is `S * K`. -/
+theorem C03_rmul_kruskal [CommSemiring α] [DecidableEq α] (A : Sparse α) (hA : A.WF) (K : Ktensor α)
+    (hs : A.shape = K.shape) :
+    ∃ R, kmul K A = .ok R ∧ R.WF ∧ R.shape = A.shape ∧ ∀ i, R.get i = K.get i * A.get i := by
+  obtain ⟨R, e, w, sh, g⟩ := mulK_spec A hA K hs
+  exact ⟨R, e, w, sh, fun i => by rw [g i, mul_comm]⟩
+
+/-- The reflected quotient `K / S` and every element-wise combination with a Tucker tensor
+(`S * T`, `S / T`, `T * S`, `T / S`) do not exist: they are refused whatever the operands. -/
+theorem C03_rdiv_kruskal_tucker_reject (A : Sparse α) (K : Ktensor α) (T : Ttensor α) :
+    rdivK K A = .error .reject ∧ mulT A T = .error .reject ∧ divT A T = .error .reject ∧
+    tmul T A = .error .reject ∧ rdivT T A = .error .reject :=
+  ⟨rfl, rfl, rfl, rfl, rfl⟩
 
 /-! ### logical operations -/
 
@@ -458,6 +547,11 @@ example : SpElem.eq (⟨[3], [[1], [2]], [-2, 5]⟩ : Sparse Int) (.scalar 5)
     = .ok ⟨[3], [[2]], [1]⟩ := by decide
 example : div XRat.nan (⟨[2], [[0]], [.fin 2]⟩ : Sparse XRat) (.scalar 0)
     = .ok ⟨[2], [[0], [1]], [.pinf, .nan]⟩ := by decide +kernel
+example : divK (.fin floatEps) (⟨[2, 1, 2], [[1, 0, 1], [0, 0, 0]], [.fin 6, .fin (-3)]⟩ : Sparse XRat)
+    (⟨[2, -1], [[[1, 1], [2, 0]], [[1, 3]], [[1, 1], [2, 1]]]⟩ : Ktensor Rat).toX
+    = .ok ⟨[2, 1, 2], [[1, 0, 1], [0, 0, 0]], [.fin (3 / 4), .fin (-13510798882111488)]⟩ := by decide +kernel
+example : (⟨[2, 1, 2], [[1, 0, 1], [0, 0, 0]], [.fin 6, .fin (-3)]⟩ : Sparse XRat).WF :=
+  ⟨rfl, by decide, by decide, by decide +kernel⟩
 example : (⟨[2, 2], [[0, 0], [1, 1]], [2, 3]⟩ : Sparse Int).WF := ⟨rfl, by decide, by decide, by decide⟩
 
 end Pyttb
